@@ -6,7 +6,7 @@ echo "| seeded change | property | patch applies | quick check exit | violation 
 echo "|---|---|---|---|---|" >> $OUT.tmp
 for d in /verif/seeded/*/; do
   name=$(basename $d)
-  prop=$(/venv/bin/python -c "import json;print(json.load(open('$d/meta.json'))['breaks_property'])")
+  prop=$(/venv/bin/python -c "import json;m=json.load(open('$d/meta.json'));print(m.get('check_with', m['breaks_property']))")
   WT=/tmp/wt-reseed
   git -C /repo worktree remove --force $WT 2>/dev/null
   git -C /repo worktree add -q --detach $WT HEAD
